@@ -194,6 +194,24 @@ fn header(out: &mut Vec<u8>, tag: (u16, u16), vr: VR, len: u32, ts: Ts) {
     }
 }
 
+/// PS3.5 §7.1 layout of an element header; `None` when `len` cannot be expressed
+/// (16-bit form and len > 0xFFFF).
+pub fn header_bytes(tag: (u16, u16), vr: VR, len: u32, ts: Ts) -> Option<Vec<u8>> {
+    if ts.explicit() && short_form(vr) && len > 0xFFFF {
+        return None;
+    }
+    let mut o = Vec::new();
+    header(&mut o, tag, vr, len, ts);
+    Some(o)
+}
+
+/// Item (E000), item delimiter (E00D) or sequence delimiter (E0DD) header.
+pub fn item_bytes(el: u16, len: u32, ts: Ts) -> Vec<u8> {
+    let mut o = Vec::new();
+    item_tag(&mut o, el, len, ts.big());
+    o
+}
+
 fn item_tag(out: &mut Vec<u8>, el: u16, len: u32, big: bool) {
     p16(out, 0xFFFE, big);
     p16(out, el, big);
